@@ -7,7 +7,7 @@
    A2  bounds-checked re-statement of spmv / residual / CRS construction / transpose over
        flat arrays: LowLevel.v, LowLevelProofs.v, LowLevelT.v, LowLevelTProofs.v (C10_ll_...)
    A2' the same with UNWRITTEN memory cells (new T[n] without initialisation): sort_row / sort_rows,
-       spgemm_saad, plain_aggregates (+ diagonal), tentative_prolongation, ilu0 constructor:
+       spgemm_saad, plain_aggregates (+ diagonal), tentative_prolongation, ilu0 constructor, skyline_lu:
        LowLevel2*.v, LowLevel2*Proofs.v                                      (C10_ll2_...)
    "any S" = for every Scalar record, IEEE floats with NaN payloads included. *)
 From Coq Require Import List.
@@ -15,7 +15,7 @@ From Amgcl Require Import Scalar QcInst Vec Crs Kernels KernelsProofs MatOps Mat
 From Amgcl Require Import Own OwnProofs Junk JunkProofs LowLevel LowLevelProofs LowLevelT LowLevelTProofs.
 From Amgcl Require Import Aggregates Coarsen CoarsenProofs Direct DirectProofs Krylov KrylovProofs
                           Cheby ChebyProofs Inverse InverseProofs Amg AmgProofs.
-From Amgcl Require Import Tentative LowLevel2 LowLevel2Proofs LowLevel2G LowLevel2GProofs LowLevel2A LowLevel2AProofs LowLevel2I LowLevel2IProofs.
+From Amgcl Require Import Tentative LowLevel2 LowLevel2Proofs LowLevel2G LowLevel2GProofs LowLevel2A LowLevel2AProofs LowLevel2I LowLevel2IProofs LowLevel2K LowLevel2KProofs.
 Import ListNotations.
 Local Open Scope S_scope.
 
@@ -428,6 +428,46 @@ Theorem C10_ll2_ilu0_without_diagonal_refuted (S : Scalar) (junk : vec S) :
   Ilu.ilu0 (mkCrs 1 [[]] : crs S) junk = Ilu.Ok (mkCrs 1 [[]], mkCrs 1 [[]], [vget junk 0]).
 Proof. exact (ll_ilu0_nodiag_uninit junk). Qed.
 Print Assumptions C10_ll2_ilu0_without_diagonal_refuted.
+
+(* solver::skyline_lu after the ordering (perm given, entries < n): invperm, profile heights, the
+   last/tmp transform of ptr, resize, fill, factorize() (Crout) with every int subtraction in Z
+   (ptr[newi+1] + newj - newi, k + 1 - ptr[k+2] + ptr[k+1], i - ptr[i+1] + k, j = n-1 .. 0); a failed
+   precondition is KThrow.  The list model Direct.v computes the same with truncated subtraction: the
+   theorem also shows that no C++ index is ever negative or beyond its vector *)
+Theorem C10_ll2_skyline_build (S : Scalar) (A : crs S) (perm : list nat) :
+  wf A = true -> ncols A <= nrows A -> 0 < nrows A -> length perm = nrows A ->
+  (forall i, i < nrows A -> pget perm i < nrows A) ->
+  ll_sky_build (flat_of A) perm = Done (sky_out_of (sky_build_perm A perm)).
+Proof. exact (ll_sky_build_ok A perm). Qed.
+Print Assumptions C10_ll2_skyline_build.
+
+Theorem C10_ll2_skyline_build_safe (S : Scalar) (A : crs S) (perm : list nat) :
+  wf A = true -> ncols A <= nrows A -> 0 < nrows A -> length perm = nrows A ->
+  (forall i, i < nrows A -> pget perm i < nrows A) ->
+  ll_sky_build (flat_of A) perm <> OutOfBounds /\ ll_sky_build (flat_of A) perm <> UninitRead /\
+  ll_sky_build (flat_of A) perm <> OutOfFuel.
+Proof. exact (ll_sky_build_safe A perm). Qed.
+Print Assumptions C10_ll2_skyline_build_safe.
+
+(* operator()(rhs, x) of the object the constructor returns: forward, backward (descending j), scatter *)
+Theorem C10_ll2_skyline_solve (S : Scalar) (A : crs S) (perm : list nat) (f : skyline S) (rhs x y : vec S) :
+  wf A = true -> ncols A <= nrows A -> 0 < nrows A -> length perm = nrows A ->
+  (forall i, i < nrows A -> pget perm i < nrows A) ->
+  sky_build_perm A perm = SkyOk f ->
+  length rhs = nrows A -> length x = nrows A -> length y = nrows A ->
+  ll_sky_solve (sk_n f) (filled (sk_perm f)) (zfilled (sk_ptr f)) (filled (sk_L f)) (filled (sk_U f))
+               (filled (sk_D f)) rhs (filled x) (filled y)
+  = Done (filled (fst (sky_solve f rhs x y)), filled (snd (sky_solve f rhs x y))).
+Proof. exact (ll_sky_build_solve_ok A perm f rhs x y). Qed.
+Print Assumptions C10_ll2_skyline_solve.
+
+(* n = 0 is NOT accepted: factorize() evaluates D[0] of an empty vector (before that, cuthill_mckee
+   writes perm[0]); the list model hides it behind its total accessor (reports the precondition).
+   Recorded as known finding C03-empty-coarse-level-direct-solver-crash. *)
+Theorem C10_ll2_skyline_empty_matrix_refuted :
+  ll_sky_build (flat_of ex0) [] = OutOfBounds /\ sky_out_of (sky_build_perm ex0 []) = KThrow.
+Proof. exact (conj ll_sky_build_n0 sky_build_perm_n0). Qed.
+Print Assumptions C10_ll2_skyline_empty_matrix_refuted.
 
 (* the degenerate inputs named by the property, and inputs on which the checks must (and do) bite *)
 Definition q10 (z : Z) : QcS := qc z 1.
